@@ -29,14 +29,21 @@ pub fn used() -> u64 {
 /// Account for one loop iteration at the named site.
 #[inline]
 pub fn tick(site: &'static str) {
-    USED.with(|u| u.set(u.get().wrapping_add(1)));
+    tick_n(site, 1)
+}
+
+/// Account for a loop iteration whose cost grows with the size of the data
+/// it works on (`cost` steps at once).
+#[inline]
+pub fn tick_n(site: &'static str, cost: u64) {
+    USED.with(|u| u.set(u.get().wrapping_add(cost)));
     BUDGET.with(|b| {
         let left = b.get();
-        if left == 0 {
+        if left < cost {
             // re-arm, so that unwinding code that ticks does not double-panic
             b.set(u64::MAX);
             panic!("verif-step-budget:{}", site);
         }
-        b.set(left - 1);
+        b.set(left - cost);
     });
 }
